@@ -26,7 +26,7 @@ TIERS = {
 }
 
 TREE_ENTRIES = ("string:exec", "string:eval", "file", "parser:iter")
-MAX_DAMAGED_NEST = 9
+MAX_DAMAGED_NEST = 7
 
 
 # ----------------------------------------------------------------------------------------------
@@ -294,8 +294,8 @@ def run_batch(batch: dict) -> dict:
                     res["cut_short"] = True
                     break
                 if pool._nesting(content) > MAX_DAMAGED_NEST and not task.get("deep"):
-                    # the diagnostic second pass is exponential in list-display nesting (3x per level; depth 10 with
-                    # an error needs 1.3e7 back-edges and still terminates): beyond this depth a step budget could
+                    # the diagnostic second pass is exponential in list-display nesting (3x per level; depth 8 with an
+                    # error takes 2 s, depth 10 needs 1.3e7 back-edges, and both still terminate): beyond this depth a step budget could
                     # not tell slow from stuck, so such contents are out of scope and counted
                     res["skipped_deep_nesting"] += 1
                     continue
@@ -425,7 +425,19 @@ def check(prop: str, tier: str, evidence_text: dict) -> int:
     tr = time.monotonic()
     cut_short = budget_seen = slow_max = 0
     messages: set[str] = set()
-    for idx, (status, res) in kernel.run_tasks(run_batch, batches, wall_timeout=1200.0):
+    def results():
+        """A batch that fell to the wall-clock safety net (many slow contents in one batch on a loaded machine) is
+        repeated once, alone, with a longer guard; a time-out is never a pass and never a violation."""
+        again = []
+        for idx, (status, res) in kernel.run_tasks(run_batch, batches, wall_timeout=1800.0):
+            if status == "harness-timeout" and len(again) < 4:
+                again.append(idx)
+                continue
+            yield idx, (status, res)
+        for idx in again:
+            yield idx, kernel.run_in_child(run_batch, batches[idx], 7200.0)
+
+    for idx, (status, res) in results():
         if status != "ok":
             report.harness(f"batch {idx}: {status}: {res}")
             continue
@@ -516,7 +528,7 @@ def check(prop: str, tier: str, evidence_text: dict) -> int:
         "batches_cut_short_by_nontermination_breaker": cut_short,
         "largest_step_count_of_a_slow_input_that_terminated": slow_max,
         "step_budget": worldb.HARD_BUDGET,
-        "contents_skipped_for_bracket_nesting_above_9": agg["skipped_deep_nesting"],
+        "contents_skipped_for_bracket_nesting_above_7": agg["skipped_deep_nesting"],
         "file_opens_observed": agg["second_opens"],
         "default_encoding_opens": agg["default_encoding_opens"],
         "contents_per_hour": round(agg["contents"] / max(run_s, 1e-9) * 3600),
